@@ -453,3 +453,88 @@ Proof.
   destruct (Addr.t_transport t) eqn:T; try discriminate.
   intros [= <-]. exists t. auto.
 Qed.
+
+(** * Time: only the caller's deadline (and the TCP connection deadline) bound the retry *)
+
+Lemma timed_tcp_reply q deadline t_udp r t_tcp tcp t :
+  t_udp + t_tcp < deadline -> t_tcp < tcp_query_timeout_ms ->
+  msg_truncated r = Some true -> tcp q = Reply t ->
+  udp_with_fallback_timed q deadline t_udp (Reply r) t_tcp tcp = (RReply t, [q]).
+Proof.
+  intros D C E T. unfold udp_with_fallback_timed, with_deadline.
+  set (K := tcp_query_timeout_ms) in *. clearbody K.
+  destruct (t_udp <? deadline) eqn:E1; [|lia].
+  rewrite (result_is_tcp_reply_when_tc _ _ _ E).
+  destruct (K <=? t_tcp) eqn:E2; [lia|].
+  destruct (t_udp + t_tcp <? deadline) eqn:E3; [|lia].
+  rewrite T. reflexivity.
+Qed.
+
+Lemma timed_udp_reply q deadline t_udp r t_tcp tcp :
+  t_udp < deadline -> msg_truncated r = Some false ->
+  udp_with_fallback_timed q deadline t_udp (Reply r) t_tcp tcp = (RReply r, []).
+Proof.
+  intros D E. unfold udp_with_fallback_timed, with_deadline.
+  destruct (t_udp <? deadline) eqn:E1; [|lia].
+  apply result_is_udp_reply_otherwise. exact E.
+Qed.
+
+Lemma timed_gives_up q deadline t_udp udp t_tcp tcp :
+  deadline <= t_udp + t_tcp ->
+  (forall r, udp = Reply r -> msg_truncated r = Some true) ->
+  exists e, fst (udp_with_fallback_timed q deadline t_udp udp t_tcp tcp) = RErr e.
+Proof.
+  intros D TC. unfold udp_with_fallback_timed, with_deadline.
+  destruct (t_udp <? deadline) eqn:E1; [|cbn; eauto].
+  destruct udp as [r|e]; [|cbn; eauto].
+  rewrite (result_is_tcp_reply_when_tc _ _ _ (TC r eq_refl)).
+  destruct (tcp_query_timeout_ms <=? t_tcp); [cbn; eauto|].
+  destruct (t_udp + t_tcp <? deadline) eqn:E3; [lia|]. cbn. eauto.
+Qed.
+
+(** * Abandoned retries never cross replies *)
+
+Definition pool_ok (s : rpool) : Prop :=
+  Forall (fun o => o = []) (r_idle s) /\ Forall (fun st => length st = 1%nat) (r_out s).
+
+Lemma pool0_ok : pool_ok rpool0.
+Proof. split; constructor. Qed.
+
+Lemma rstep_ok f s e : pool_ok s -> pool_ok (fst (rstep f s e)).
+Proof.
+  intros [I O]. destruct e as [q gu|]; unfold rstep, pool_ok.
+  - destruct (r_idle s) as [|o t] eqn:E.
+    + cbn [app]. destruct gu; cbn; split; auto.
+    + inversion I as [|? ? Ho It]; subst. cbn [app].
+      destruct gu; cbn; split; auto.
+  - cbn. split; [|constructor].
+    apply Forall_app. split; [exact I|].
+    apply Forall_forall. intros x Hx. apply in_map_iff in Hx as (y & <- & _). reflexivity.
+Qed.
+
+Lemma rstep_own_reply f s q : pool_ok s -> snd (rstep f s (EvExchange q false)) = Some (f q).
+Proof.
+  intros [I _]. unfold rstep. destruct (r_idle s) as [|o t]; [reflexivity|].
+  inversion I; subst. reflexivity.
+Qed.
+
+Lemma rstep_gives_up f s q : snd (rstep f s (EvExchange q true)) = None.
+Proof. unfold rstep. destruct (r_idle s); reflexivity. Qed.
+
+Definition reply_ok (f : bytes -> bytes) (e : rev) (r : option bytes) : Prop :=
+  match e with
+  | EvExchange q false => r = Some (f q)
+  | _ => r = None
+  end.
+
+Lemma rrun_own_replies f es : forall s, pool_ok s -> Forall2 (reply_ok f) es (rrun f s es).
+Proof.
+  induction es as [|e t IH]; intros s H; cbn [rrun]; [constructor|].
+  pose proof (rstep_ok f s e H) as H'.
+  destruct (rstep f s e) as [s' r] eqn:E. cbn [fst] in H'.
+  constructor; [|apply IH; exact H'].
+  destruct e as [q [|]|]; cbn [reply_ok].
+  - pose proof (rstep_gives_up f s q) as G. rewrite E in G. exact G.
+  - pose proof (rstep_own_reply f s q H) as G. rewrite E in G. exact G.
+  - unfold rstep in E. injection E as _ <-. reflexivity.
+Qed.
